@@ -6,6 +6,8 @@
 // printer when the m-th record is printed (non-aggregate queries print while reading).  Grid: every sequence of up to 4 lines
 // over a 5-line pool (also split into two files) x 5 plain statements x every m; every statement with the flag cleared
 // before the start; a join whose joined file must not be read after an interrupt before the start (at most ten lines).
+// Also: a join with several partners per line in interactive mode, interrupted at every printed line; follow mode with a
+// backlog of complete lines and the interrupt already pending (nothing consumed, no error).
 include!("verif_grid_common.rs");
 include!("verif_grid_qcommon.rs");
 
